@@ -10,16 +10,61 @@ func tstr(t types.Type) string {
 	return types.TypeString(t, func(p *types.Package) string { return p.Name() })
 }
 
+// arrReg remembers how to declare a heap array from its name (the name is derived from Go types).
+var arrReg = map[string]func(c *FnCtx){}
+
 func fieldArrName(st types.Type, idx int) string {
 	s := st.Underlying().(*types.Struct)
-	return "F_" + mangle(tstr(st)) + "_" + s.Field(idx).Name()
+	n := "F_" + mangle(tstr(st)) + "_" + s.Field(idx).Name()
+	if _, ok := arrReg[n]; !ok {
+		arrReg[n] = func(c *FnCtx) { c.fieldArr(st, idx) }
+	}
+	return n
 }
-func cellArrName(t types.Type) string { return "C_" + mangle(tstr(t)) }
+func cellArrName(t types.Type) string {
+	n := "C_" + mangle(tstr(t))
+	if _, ok := arrReg[n]; !ok {
+		arrReg[n] = func(c *FnCtx) { c.cellArr(t) }
+	}
+	return n
+}
 func backArrName(elem types.Type) string {
-	return "A_" + mangle(tstr(elem))
+	n := "A_" + mangle(tstr(elem))
+	if _, ok := arrReg[n]; !ok {
+		arrReg[n] = func(c *FnCtx) { c.backArr(elem) }
+	}
+	return n
 }
-func mapDomName(mt types.Type) string { return "MD_" + mangle(tstr(mt.Underlying())) }
-func mapValName(mt types.Type) string { return "MV_" + mangle(tstr(mt.Underlying())) }
+func mapDomName(mt types.Type) string {
+	n := "MD_" + mangle(tstr(mt.Underlying()))
+	if _, ok := arrReg[n]; !ok {
+		arrReg[n] = func(c *FnCtx) { c.mapArrs(mt) }
+	}
+	return n
+}
+func mapValName(mt types.Type) string {
+	n := "MV_" + mangle(tstr(mt.Underlying()))
+	if _, ok := arrReg[n]; !ok {
+		arrReg[n] = func(c *FnCtx) { c.mapArrs(mt) }
+	}
+	return n
+}
+
+// ensureArr declares heap array name in this VC if it is not yet known.
+func (c *FnCtx) ensureArr(name string) bool {
+	if _, ok := c.arrSorts[name]; ok {
+		return true
+	}
+	if _, _, ok := c.ghostArr(name); ok {
+		return true
+	}
+	if f, ok := arrReg[name]; ok {
+		f(c)
+		_, ok2 := c.arrSorts[name]
+		return ok2
+	}
+	return false
+}
 
 func derefType(t types.Type) types.Type {
 	if p, ok := t.Underlying().(*types.Pointer); ok {
@@ -117,6 +162,20 @@ func (v *Verifier) instrMods(in ssa.Instruction, inScope func(ssa.Instruction) b
 		out[mapValName(x.Map.Type())] = true
 	case ssa.CallInstruction:
 		v.callMods(x.Common(), out)
+		// a call through (or a library call that receives) a `callsback` parameter has arbitrary effects
+		if f := in.Parent(); f != nil {
+			if con := v.contractOf(f); con != nil && len(con.Callsback) > 0 {
+				cc := x.Common()
+				if pv, ok := cc.Value.(*ssa.Parameter); ok && con.Callsback[pv.Name()] {
+					out["*"] = true
+				}
+				for _, a := range cc.Args {
+					if pv, ok := a.(*ssa.Parameter); ok && con.Callsback[pv.Name()] {
+						out["*"] = true
+					}
+				}
+			}
+		}
 	}
 }
 
@@ -162,7 +221,7 @@ func (v *Verifier) callMods(c *ssa.CallCommon, out map[string]bool) {
 	}
 	// closures handed to the callee (callbacks run during the call)
 	for _, a := range c.Args {
-		if mc, ok := a.(*ssa.MakeClosure); ok {
+		if mc := asClosure(a); mc != nil {
 			addFn(mc.Fn.(*ssa.Function))
 		}
 		if f, ok := a.(*ssa.Function); ok && v.inModule(f) {
@@ -282,4 +341,21 @@ func (v *Verifier) computeModSets() {
 			}
 		}
 	}
+}
+
+// asClosure looks through type changes for the closure a value denotes.
+func asClosure(a ssa.Value) *ssa.MakeClosure {
+	for i := 0; i < 5; i++ {
+		switch x := a.(type) {
+		case *ssa.MakeClosure:
+			return x
+		case *ssa.ChangeType:
+			a = x.X
+		case *ssa.MakeInterface:
+			a = x.X
+		default:
+			return nil
+		}
+	}
+	return nil
 }
